@@ -548,3 +548,107 @@ class JmaCsv:
 
     def raises(c, exc, fname, _n, _h):
         return None
+
+
+# ------------------------------------------------------------------ csep.load_catalog: type -> (class, reader) dispatch
+LOADCAT = 'csep.load_catalog'
+READER_OF = {'csep-csv': 'csep_ascii', 'zmap': 'zmap_ascii', 'jma-csv': 'jma_csv', 'ndk': 'ndk', 'ingv_horus': 'ingv_horus',
+             'ingv_emrcmt': 'ingv_emrcmt', 'ucerf3': None}
+CLASS_OF = {t: ('UCERF3Catalog' if t == 'ucerf3' else 'CSEPCatalog') for t in READER_OF}
+
+
+def _loadcat_stubs(c, region_less=False):
+    from pyvc.core import Lam
+    log = []
+
+    def mk_catalog_value(tag):
+        def _filter(*a, **k):
+            log.append(('filter', tag))
+            return mk_catalog_value(tag + '.filter()')
+
+        def _filter_spatial(*a, **k):
+            log.append(('filter_spatial', tag))
+            if region_less:
+                exc = c.I.repo.locate('csep.core.exceptions.CSEPCatalogException', c.I)
+                raise PyRaise(exc.exc if hasattr(exc, 'exc') and exc.exc is not None else exc, 'no region')
+            return mk_catalog_value(tag + '.filter_spatial()')
+
+        def _csep(*a, **k):
+            log.append(('get_csep_format', tag))
+            return mk_catalog_value(tag + '.get_csep_format()')
+        return Opaque('catalog_value', tag=tag, filter=Lam(_filter, 'filter'), filter_spatial=Lam(_filter_spatial, 'filter_spatial'),
+                      get_csep_format=Lam(_csep, 'get_csep_format'))
+
+    def mk_class(cname):
+        def load_catalog(filename=None, loader=None, **kw):
+            log.append(('load_catalog', cname, filename, loader, kw))
+            return mk_catalog_value('loaded')
+
+        def load_json(filename, **kw):
+            log.append(('load_json', cname, filename, kw))
+            return mk_catalog_value('loaded')
+        return Opaque('catalog_class', cname=cname, load_catalog=Lam(load_catalog, 'load_catalog'), load_json=Lam(load_json, 'load_json'))
+    readers = Opaque('readers_module', **{nm: Opaque('reader', reader_name=nm) for nm in
+                                          ('csep_ascii', 'zmap_ascii', 'jma_csv', 'ndk', 'ingv_horus', 'ingv_emrcmt')})
+    cats = Opaque('catalogs_module', CSEPCatalog=mk_class('CSEPCatalog'), UCERF3Catalog=mk_class('UCERF3Catalog'))
+    c.ctx.ghost['global_overrides'] = {('csep', 'readers'): readers, ('csep', 'catalogs'): cats}
+    return log
+
+
+def loadcat_case(type_, filename='catalog.dat', fmt='native', apply_filters=False, own_loader=False, region_less=False, extra=None):
+    extra = extra or {}
+
+    class LC:
+        qualname = LOADCAT
+        case = 'type=%s, file %s, format=%s%s%s%s' % (type_, filename, fmt, ', apply_filters' if apply_filters else '',
+                                                         ', loader given' if own_loader else '', ', catalog without region' if region_less else '')
+        properties = ('C19',)
+
+        def params(c):
+            log = _loadcat_stubs(c, region_less)
+            p = dict(filename=filename, type=type_, format=fmt, apply_filters=apply_filters, _log=log)
+            if own_loader:
+                p['loader'] = Opaque('reader', reader_name='callers_own')
+            p.update(extra)
+            return p
+
+        def ensures(c, r, filename, type, format, apply_filters, _log, loader=None, **kw):
+            known = type in READER_OF or loader is not None
+            yield 'a catalog is returned only for a known type (or a loader of the caller) and a known format', z3.BoolVal(
+                known and format in ('native', 'csep') and isinstance(r, Opaque) and r.name == 'catalog_value')
+            loads = [e for e in _log if e[0] in ('load_catalog', 'load_json')]
+            yield 'the file is loaded exactly once', z3.BoolVal(len(loads) == 1)
+            if len(loads) != 1:
+                return
+            e = loads[0]
+            if filename.endswith('.json'):
+                yield 'a .json file goes through load_json of the class of the type', z3.BoolVal(
+                    e[0] == 'load_json' and e[1] == CLASS_OF.get(type) and e[2] == filename and e[3] == kw)
+            else:
+                want = 'callers_own' if loader is not None else READER_OF.get(type)
+                got = e[3].reader_name if isinstance(e[3], Opaque) and e[3].name == 'reader' else e[3]
+                yield 'the class and the reader of the requested type are used (a loader of the caller wins), keywords passed on', z3.BoolVal(
+                    e[0] == 'load_catalog' and e[1] == CLASS_OF.get(type) and e[2] == filename and got == want and e[4] == kw)
+            want_tag = 'loaded' + ('.get_csep_format()' if format == 'csep' else '')
+            if apply_filters:
+                want_tag += '.filter()' + ('' if region_less else '.filter_spatial()')
+            yield 'format conversion and filters are applied as requested, in that order (spatial filter only with a region)', z3.BoolVal(
+                isinstance(r, Opaque) and getattr(r, 'tag', None) == want_tag)
+
+        def raises(c, exc, filename, type, format, apply_filters, _log, loader=None, **kw):
+            bad_type = type not in READER_OF and loader is None
+            bad_fmt = format not in ('native', 'csep')
+            return [('ValueError exactly for an unknown type (without loader) or an unknown format', z3.BoolVal(exc.name == 'ValueError' and (bad_type or bad_fmt))),
+                    ('an unknown type is rejected before anything is loaded', z3.BoolVal(not bad_type or not _log))]
+    LC.__name__ = 'LoadCatalog_%s' % abs(hash(LC.case))
+    return LC
+
+
+from pyvc.contracts import REG as _REG_RD      # noqa: E402
+for _t in READER_OF:
+    _REG_RD.add(loadcat_case(_t))
+for _kw in (dict(type_='csep-csv', filename='catalog.json'), dict(type_='ucerf3', filename='catalog.json', extra={'name': 'x'}),
+            dict(type_='zmap', fmt='csep'), dict(type_='jma-csv', apply_filters=True), dict(type_='csep-csv', apply_filters=True, region_less=True),
+            dict(type_='ndk', fmt='csep', apply_filters=True), dict(type_='csep-csv', own_loader=True),
+            dict(type_='my-format'), dict(type_='zmap', fmt='zmap'), dict(type_='ingv_horus', extra={'name': 'horus', 'region': None})):
+    _REG_RD.add(loadcat_case(**_kw))
